@@ -41,6 +41,25 @@ def kind(d):
     return None
 
 
+def _yang_fraction_digits():
+    import re
+    digits = {}
+    for f in glob.glob(os.path.join(REPO, 'gnpy', 'yang', '*.yang')):
+        txt = open(f).read()
+        for m in re.finditer(r'\bleaf(?:-list)?\s+([\w\-]+)\s*\{', txt):
+            i, depth = m.end(), 1
+            while depth and i < len(txt):
+                depth += {'{': 1, '}': -1}.get(txt[i], 0)
+                i += 1
+            fd = [int(x) for x in re.findall(r'fraction-digits\s+(\d+)', txt[m.end():i])]
+            if fd:
+                digits.setdefault(m.group(1), set()).update(fd)
+    return digits
+
+
+YANG_DIGITS = _yang_fraction_digits()
+
+
 def cmp(x, y, pre='', key=None):
     """differences between an original legacy document x and its converted-back form y"""
     if isinstance(x, dict) and isinstance(y, dict):
@@ -53,7 +72,9 @@ def cmp(x, y, pre='', key=None):
                 if y[k] not in EMPTY and not (k == 'type_variety' and y[k] == 'default'):
                     yield f'{pre}.{k}: <absent> -> {str(y[k])[:60]}'
             else:
-                yield from cmp(x[k], y[k], f'{pre}.{k}', k)
+                # a value keyed by a free name (a degree of a per-degree dictionary) has the precision of the dictionary's leaf
+                named = k in YANG_DIGITS or k in PRECISION_DICT or key is None
+                yield from cmp(x[k], y[k], f'{pre}.{k}', k if named else key)
     elif isinstance(x, list) and isinstance(y, list):
         if len(x) != len(y):
             yield f'{pre}: list of {len(x)} -> list of {len(y)}'
@@ -64,7 +85,9 @@ def cmp(x, y, pre='', key=None):
         if x != y and not (x in EMPTY and y in EMPTY):
             yield f'{pre}: {x!r} -> {y!r}'
     elif isinstance(x, (int, float)) and isinstance(y, (int, float)):
-        digits = PRECISION_DICT.get(key, 2)
+        # declared precision: the fraction-digits of the leaf in the YANG modules themselves (the loosest where a name is declared
+        # more than once); the converter's own table only for leaves of modules that are not shipped under gnpy/yang
+        digits = min(YANG_DIGITS[key]) if key in YANG_DIGITS else PRECISION_DICT.get(key, 2)
         tol = 0.5000001 * 10.0 ** (-digits) if digits > 0 else 0
         if abs(x - y) > tol + 1e-15 * abs(x):
             yield f'{pre}: {x!r} -> {y!r} (declared fraction digits of {key!r}: {digits})'
